@@ -32,7 +32,8 @@ AT = {"json": ["b0", "headers-mid", "headers-done", "mid", "done"],
       "stdio": ["b0", "mid", "between", "done"]}
 FAULTS = {"json": ["close", "reset", "stall"], "sse": ["close", "reset", "stall"], "sse-nh": ["close", "reset", "stall"],
           "legacy": ["close", "reset", "stall"], "stdio": ["exit", "kill", "stall"]}
-EXTRA_AT = {"json": {"req-mid": "b0"}, "sse": {"req-mid": "b0"}, "legacy": {"post-b0": "b0", "post-mid": "headers-mid"}}
+EXTRA_AT = {"json": {"req-mid": "b0"}, "sse": {"req-mid": "b0", "done-trail": "done"}, "sse-nh": {"done-trail": "done"},
+            "legacy": {"post-b0": "b0", "post-mid": "headers-mid"}}
 
 
 def ctx_kinds(fault, at, client, n=1):
@@ -112,6 +113,11 @@ def build_client_scenarios(g, tier, rnd):
                 plan = [(n, c) for n in (1, 2) for c in ctxs] if tier == "thorough" else [(rnd.choice((1, 2)), rnd.choice(ctxs))]
                 for n, c in plan:
                     scen.append({"client": client, "fault": fault, "at": at, "model_at": model_at, "ncalls": n, "ctx": c})
+        # clients configured with retries: a retryable fault (nothing of the answer arrived), and the context ends during the back-off
+        if client in ("json", "sse", "legacy"):
+            for fault in (("close", "reset") if tier == "thorough" else (rnd.choice(("close", "reset")),)):
+                for c in (("deadline", "cancel") if tier == "thorough" else (rnd.choice(("deadline", "cancel")),)):
+                    scen.append({"client": client, "fault": fault, "at": "b0", "model_at": "b0", "ncalls": 1, "ctx": c, "retry": True})
         # sampled byte offsets of the answer
         noff = 24 if tier == "thorough" else 3
         for _ in range(noff):
@@ -130,7 +136,7 @@ def build_client_scenarios(g, tier, rnd):
             scen.append({"client": client, "fault": "race-cancel", "model_fault": "stall", "at": "done", "model_at": "done", "ncalls": 1, "ctx": "race"})
             scen.append({"client": client, "fault": "race-close", "model_fault": "clientclose", "at": "done", "model_at": "done", "ncalls": 1, "ctx": "race"})
     for i, s in enumerate(scen):
-        s["id"] = "%s-%s-%s-n%d-%s-%d" % (s["client"], s["fault"], s["at"], s["ncalls"], s["ctx"], i)
+        s["id"] = "%s-%s-%s%s-n%d-%s-%d" % (s["client"], s["fault"], s["at"], "-retry" if s.get("retry") else "", s["ncalls"], s["ctx"], i)
     return scen
 
 
@@ -187,7 +193,7 @@ def run(tier, replay=None):
                 run_.evaluations += 1
                 rp = {"cmd": ["c08"], "input": {"scenarios": [{k: v for k, v in sc.items() if not k.startswith("model_")}]}, "observed": r, "spec": "CallEnds"}
                 at_class = "byte-offset" if sc["at"].startswith("byte:") else sc["at"]
-                tag = "client=%s fault=%s at=%s" % (sc["client"], sc["fault"], at_class)
+                tag = "client=%s%s fault=%s at=%s" % (sc["client"], "+retry" if sc.get("retry") else "", sc["fault"], at_class)
                 if "_crash" in r:
                     run_.diverge(tag + " process-crash", "the client process died: %s" % r["_crash"][:1200], rp)
                     continue
